@@ -393,9 +393,13 @@ def calls_case(draw, n_inputs=3):
             base = g.pick([f for f in g.funcs if f.ret != M.VOID and not f.name.startswith(("r", "t"))])
             name = base.name
             sig = None
-            for _ in range(6):
+            for attempt in range(6):
                 n_par = len(base.params) if g.chance(50) else draw(st.integers(1, 3))
                 cand = tuple(g.pick(ptypes) for _ in range(n_par))
+                if attempt == 0 and g.chance(50):
+                    # a "prefix" overload: the base signature with int<->float swapped, one parameter more or less
+                    swapped = tuple(INT if t == FLOAT else FLOAT if t == INT else t for t, _ in base.params)
+                    cand = swapped + (g.pick(ptypes),) if (g.chance(60) or len(swapped) == 1) else swapped[:-1]
                 if all(tuple(t for t, _ in f.params) != cand for f in g.funcs if f.name == name) and not any(
                         _confusable(cand, tuple(t for t, _ in f.params)) for f in g.funcs if f.name == name):
                     sig = cand
